@@ -482,7 +482,7 @@ impl FixtureDatabase {
     ) -> HashSet<String> {
         let mut imported_fixtures = HashSet::new();
 
-        let Some(parsed) = self.get_parsed_ast(canonical_path, content) else {
+        let Some(parsed) = self.get_parsed_ast_or_last_valid(canonical_path, content) else {
             return imported_fixtures;
         };
 
@@ -612,7 +612,7 @@ impl FixtureDatabase {
         let Some(content) = self.get_file_content(&canonical_path) else {
             return;
         };
-        let Some(parsed) = self.get_parsed_ast(&canonical_path, &content) else {
+        let Some(parsed) = self.get_parsed_ast_or_last_valid(&canonical_path, &content) else {
             return;
         };
         let line_index = self.get_line_index(&canonical_path, &content);
